@@ -209,7 +209,9 @@ def run(ctx):
         # salt the first int/string so that no key repeats across cases in this process
         for v in a:
             if v["t"] == "int":
-                v["v"] = 1000000 + 100 * i      # variants below move it by at most 10: keys of different cases never meet
+                # variants below move it by at most 10: keys of different cases never meet; the salts alternate between valid
+                # code points, values beyond the last code point, and negatives (an id printed with %q/%c would conflate those)
+                v["v"] = [1000000 + 100 * i, 5000000 + 100 * i, -(5000000 + 100 * i)][i % 3]
                 break
             if v["t"] == "string":
                 v["b"] = base64.b64encode(b"case%d:" % i + base64.b64decode(v.get("b", ""))).decode()
